@@ -176,6 +176,7 @@ class Sess(object):
     def __init__(self, addr):
         self.addr = addr
         self.fifo = []          # accepted publishes not yet first-transmitted, call order
+        self.dead_fifo = []     # QoS 0 publishes of a discarded session (must not / need not be sent)
         self.by_id = {}         # (kind-class, id) -> unfinished Req ; kind-class: "pub" "sub" "unsub"
         self.done_by_id = {}    # same key -> last finished Req
         self.inex = {}          # id -> InEx (open inbound QoS2 exchanges)
